@@ -2,18 +2,81 @@
    ONLY restatements closed by `exact`, each followed by Print Assumptions.
    Model: Codec/Model.v (generic encoding/json struct codec + the hand-written codecs
    of /repo/verifiable) on the descriptors of Generated/Structs.v (extracted from
-   /repo on every run); proofs: Codec/JsonTheory.v, Codec/Theory.v, Codec/W3C.v.
-   encoding/json's reflection semantics are MODELLED (validated per run), not verified. *)
+   /repo on every run); proofs: Codec/JsonTheory.v, Codec/Theory.v, Codec/Lossless.v,
+   Codec/W3C.v.  encoding/json's reflection semantics are MODELLED (validated per run
+   against the real library), not verified.
+
+   Reading guide:
+   * cred_decode O j          = json.Unmarshal(j, &W3CCredential{})
+   * cred_merklize_doc O c    = the document (vc *W3CCredential).Merklize hands to
+                                merklize.MerklizeJSONLD (marshal, map, delete, marshal)
+   * cred_reference_doc O j   = the original document minus the deleted members, as a
+                                generic map (what MerklizeJSONLD(original minus proof) reads)
+   * w3c_supported O j        = the supported shape (Codec/W3C.v): an object with distinct
+       member names among the twelve JSON names of W3CCredential; "@context" and "type"
+       arrays of strings; "issuer" a string; "credentialSubject" any object;
+       "credentialSchema" exactly {id, type} strings; optional (absent or, except "id",
+       null): "id" a non-empty string, "expirationDate"/"issuanceDate" RFC 3339 strings
+       accepted by time.Time whose zone hour is < 24, "credentialStatus" any non-null
+       value, "refreshService"/"displayMethod" exactly {id, type}; "proof" anything the
+       proof decoder accepts (0..n proofs of known and unknown types); numbers in
+       float64 range.
+   * jget_nn k d              = member k of d, JSON null counting as absent
+   * same_time x y            = both absent, or two strings that time.Time parses to the
+                                same civil time and zone offset (same instant). *)
 From Coq Require Import ZArith List String.
 From GSP Require Import Base.Prelude Codec.Desc Codec.Json Codec.Time Codec.Model Codec.Theory
-  Codec.Inst Codec.W3C Generated.Structs.
+  Codec.Lossless Codec.Inst Codec.W3C Generated.Structs.
 Import ListNotations.
 Open Scope string_scope.
 
-(* W3CCredential.Merklize deletes exactly the member "proof" *)
+(* W3CCredential.Merklize deletes exactly the member "proof" (checked on the source of
+   this run), and the descriptors of this run satisfy the side conditions *)
 Theorem C14_merklize_deletes_only_proof : merklize_deleted = ["proof"].
 Proof. exact merklize_deletes_exactly_proof. Qed.
 Print Assumptions C14_merklize_deletes_only_proof.
+
+Theorem C14_descriptors_lossless : top_ok merklize_deleted d_W3CCredential = true.
+Proof. exact w3c_side_conditions. Qed.
+Print Assumptions C14_descriptors_lossless.
+
+(* For every document of the supported shape: it decodes, Merklize's document and the
+   original-minus-proof document exist, and they have the same members: equal values
+   (as normalised JSON) except that absent optionals may be null in the original and the
+   two dates may be re-spelled (same instant, same offset).  The two hypotheses are about
+   external code: float64 printing/parsing is idempotent; time.Time printing then
+   parsing gives the time back. *)
+Theorem C14_lossless :
+  forall (O : oracles),
+  (forall n n', o_renum O n = Some n' -> o_renum O n' = Some n') ->
+  (forall s t s', parse_time s = Some t -> format_time t = Some s' -> parse_time s' = Some t) ->
+  forall j, w3c_supported O j ->
+  exists c d r,
+    cred_decode O j = Ok c /\
+    cred_merklize_doc O c = Ok (JObj d) /\
+    cred_reference_doc O j = Ok (JObj r) /\
+    forall k,
+      (k = "expirationDate" \/ k = "issuanceDate" -> same_time (jget_nn k d) (jget_nn k r)) /\
+      (k <> "expirationDate" -> k <> "issuanceDate" -> jget_nn k d = jget_nn k r).
+Proof. exact cred_lossless. Qed.
+Print Assumptions C14_lossless.
+
+(* hence the same facts and the same root: for any merklizer mz that is a function of the
+   members up to null-omission and the spelling of the two dates *)
+Theorem C14_same_root :
+  forall (R : Type) (mz : json -> R) (O : oracles) (j : json),
+  (forall n n', o_renum O n = Some n' -> o_renum O n' = Some n') ->
+  (forall s t s', parse_time s = Some t -> format_time t = Some s' -> parse_time s' = Some t) ->
+  (forall d r : members,
+     (forall k,
+       (k = "expirationDate" \/ k = "issuanceDate" -> same_time (jget_nn k d) (jget_nn k r)) /\
+       (k <> "expirationDate" -> k <> "issuanceDate" -> jget_nn k d = jget_nn k r)) ->
+     mz (JObj d) = mz (JObj r)) ->
+  w3c_supported O j ->
+  exists c d r, cred_decode O j = Ok c /\ cred_merklize_doc O c = Ok d /\
+                cred_reference_doc O j = Ok r /\ mz d = mz r.
+Proof. exact cred_same_root. Qed.
+Print Assumptions C14_same_root.
 
 (* the document handed to the merklizer (hence its facts and its root) is the same for
    two credentials that differ only in fields Merklize deletes (agree_out: field by
@@ -25,3 +88,8 @@ Theorem C14_proof_independent :
   cred_merklize_doc O c = Ok d -> cred_merklize_doc O c' = Ok d' -> d = d'.
 Proof. exact cred_merklize_doc_independent. Qed.
 Print Assumptions C14_proof_independent.
+
+(* non-vacuity: a concrete document is in the supported shape *)
+Theorem C14_supported_shape_inhabited : w3c_supported ex_oracles ex_doc.
+Proof. exact ex_doc_supported. Qed.
+Print Assumptions C14_supported_shape_inhabited.
